@@ -305,6 +305,45 @@ let initial_fs (lines : string list) : fs * string list =
     | _ -> true) lines in
   (!fs, rest)
 
+let case_cfg (lines : string list) : config =
+  List.fold_left (fun c l ->
+    match List.filter (fun s -> s <> "") (String.split_on_char ' ' l) with
+    | "cfg" :: kvs -> List.fold_left apply_kv c kvs
+    | _ -> c) default_cfg lines
+let case_keys (lines : string list) : string list =
+  List.fold_left (fun acc l ->
+    match List.filter (fun s -> s <> "") (String.split_on_char ' ' l) with
+    | ("put" | "abort" | "remove" | "get") :: k :: _ when not (List.mem k acc) -> acc @ [k]
+    | _ -> acc) [] lines
+
+(* what the harness's recovery_lines does on a crashed directory, on the model's image *)
+let recovery (out : Buffer.t) (cfg : config) (keys : string list) (img : fs) =
+  let w = ref (init_world img None) in
+  let hd = ref None in
+  let run o = let ((r, hd'), w') = step hash_fn !hd o !w in hd := hd'; w := w'; r in
+  let r = run (OpOpen (cfg, false)) in
+  Buffer.add_string out (Printf.sprintf "V open -> %s\n" (out_str r));
+  (match !hd with
+   | Some h ->
+     let i = h.h_mem.idx in
+     Buffer.add_string out (Printf.sprintf "V entries:%s\n" (entries_str i.km));
+     Buffer.add_string out (Printf.sprintf "V %s\n" (out_str (OutBlobs i.rc)));
+     Buffer.add_string out (Printf.sprintf "V %s\n" (out_str (OutStats (i.ub, i.tb, i.ssz))));
+     List.iter (fun k -> Buffer.add_string out (Printf.sprintf "V get %s -> %s\n" k (out_str (run (OpGet (bytes_of_hex k)))))) keys;
+     (match keys with
+      | k :: _ ->
+        let probe = bytes_of_string "probe-after-recovery" in
+        let r1 = run (OpPut (bytes_of_hex k, [probe])) in
+        let r2 = (match run (OpGet (bytes_of_hex k)) with OutBytes (Some b) -> b = probe | _ -> false) in
+        Buffer.add_string out (Printf.sprintf "V probe put=%s readback=%b\n" (out_str r1) r2)
+      | [] -> ());
+     ignore (run OpClose);
+     let r = run (OpOpen (cfg, false)) in
+     Buffer.add_string out (Printf.sprintf "V reopen -> %s\n" (match r with OutOpened _ -> "opened" | x -> out_str x));
+     ignore (run OpClose)
+   | None -> ());
+  dump_fs out "W " !w.wfs false
+
 let run_case (name : string) (lines : string list) (mode : mode) =
   let out = Buffer.create 4096 in
   let (fs0, lines) = initial_fs lines in
@@ -335,7 +374,8 @@ let run_case (name : string) (lines : string list) (mode : mode) =
      for k = 0 to total do
        let img = crash_fs (nat_of_int k) tr fs0 in
        Buffer.add_string out (Printf.sprintf "CRASH %d\n" k);
-       dump_fs out "C " img false
+       dump_fs out "C " img false;
+       recovery out (case_cfg lines) (case_keys lines) img
      done);
   print_string (Buffer.contents out)
 
